@@ -1,6 +1,7 @@
 package main
 
 import (
+	"strings"
 	"go/token"
 	"go/types"
 	"sort"
@@ -449,5 +450,134 @@ func checkCacheRefresh(c *Ctx) {
 		}
 		c.decide("PASS-cache-refresh", "SaveNode adds the node to the cache unconditionally", l.pos(saveNode.Pos()), ok, "every success return passes nodeCache.Add", "SaveNode can succeed without replacing the cache entry: after a rollback the re-used node key keeps serving the node of the erased future")
 	}
+	checkLRU(c, "PASS-cache-refresh")
+}
 
+// checkLRU: the cache the above relies on.  Add on a key that is present
+// replaces the stored value (not only its recency); Add on a new key inserts
+// into the list AND the index; every removal takes the element out of the
+// list AND the index; Get returns the value stored under that key.
+func checkLRU(c *Ctx, rule string) {
+	l := c.L
+	add, get := l.Func("cache", "*lruCache.Add"), l.Func("cache", "*lruCache.Get")
+	fDict := l.Field("cache", "lruCache", "dict")
+	if add == nil || get == nil || fDict == nil {
+		c.anchorMissing(rule, "cache.lruCache.Add / Get / dict")
+		return
+	}
+	// the `present` test: comma-ok lookup in the index
+	present := func(fn *ssa.Function) []guard {
+		return findGuards(fn, func(cond ssa.Value) (bool, int) {
+			e, ok := stripTrivial(cond).(*ssa.Extract)
+			if !ok || e.Index != 1 {
+				return false, 0
+			}
+			lk, ok := e.Tuple.(*ssa.Lookup)
+			if !ok || !lk.CommaOk || !isLoadOfField(fDict)(stripTrivial(lk.X)) {
+				return false, 0
+			}
+			return true, 0
+		})
+	}
+	isValueStore := func(in ssa.Instruction) bool {
+		st, ok := in.(*ssa.Store)
+		if !ok {
+			return false
+		}
+		fa, ok := st.Addr.(*ssa.FieldAddr)
+		if !ok || fieldName(fa.X.Type(), fa.Field) != "Value" {
+			return false
+		}
+		return roleOf(l, st.Val, "", 0) == "arg0"
+	}
+	isIndexUpdate := func(in ssa.Instruction) bool {
+		mu, ok := in.(*ssa.MapUpdate)
+		return ok && isLoadOfField(fDict)(stripTrivial(mu.Map))
+	}
+	isListCall := func(name string) func(ssa.Instruction) bool {
+		return func(in ssa.Instruction) bool {
+			cc := callCommon(in)
+			if cc == nil {
+				return false
+			}
+			f := staticCallee(cc)
+			return f != nil && f.Name() == name && f.Pkg != nil && f.Pkg.Pkg.Path() == "container/list"
+		}
+	}
+	gs := present(add)
+	if len(gs) == 0 {
+		c.bad(rule, "lruCache.Add distinguishes present / new keys", l.pos(add.Pos()), "no comma-ok lookup of the key in the index")
+		return
+	}
+	// present edge: every return passes the value replacement
+	repl := mustState(add, false, isValueStore, nil)
+	ins := mustState(add, false, isListCall("PushFront"), nil)
+	idx := mustState(add, false, isIndexUpdate, nil)
+	okRepl, okNew := true, true
+	for _, r := range returnsOf(add) {
+		if isRecoverReturn(r) {
+			continue
+		}
+		onPresent := false
+		for _, g := range gs {
+			if edgeDominates(g.iff.Block(), g.pass, r.Block()) {
+				onPresent = true
+			}
+		}
+		if onPresent {
+			okRepl = okRepl && repl(r)
+		} else {
+			okNew = okNew && ins(r) && idx(r)
+		}
+	}
+	c.decide(rule, "lruCache.Add on a present key replaces the stored value", l.pos(add.Pos()), okRepl, "element.Value = node on the `present` edge", "Add on a key that is already cached keeps the old value (only its recency changes): SaveNode's refresh of a re-used node key has no effect")
+	c.decide(rule, "lruCache.Add on a new key inserts into the list and the index", l.pos(add.Pos()), okNew, "PushFront and dict[key] = element", "a new entry is not recorded in both the recency list and the index")
+	// removals: list and index together
+	for _, name := range []string{"*lruCache.remove", "*lruCache.removeWithKey"} {
+		fn := l.Func("cache", name)
+		if fn == nil {
+			c.anchorMissing(rule, "cache."+name)
+			continue
+		}
+		rm := mustState(fn, false, isListCall("Remove"), nil)
+		del := mustState(fn, false, func(in ssa.Instruction) bool {
+			cc := callCommon(in)
+			if cc == nil {
+				return false
+			}
+			b, ok := cc.Value.(*ssa.Builtin)
+			return ok && b.Name() == "delete" && isLoadOfField(fDict)(stripTrivial(cc.Args[0]))
+		}, nil)
+		ok := true
+		for _, r := range returnsOf(fn) {
+			if !isRecoverReturn(r) {
+				ok = ok && rm(r) && del(r)
+			}
+		}
+		c.decide(rule, "cache."+name+" removes from the list and the index", l.pos(fn.Pos()), ok, "list.Remove and delete(dict, key)", "an evicted / removed entry stays in the recency list or in the index")
+	}
+	// Get: the hit returns the element found under that key
+	gg := present(get)
+	okGet := len(gg) > 0
+	for _, r := range returnsOf(get) {
+		if isRecoverReturn(r) {
+			continue
+		}
+		v := stripTrivial(retVal(r, 0))
+		if isNilConst(v) {
+			continue
+		}
+		role := roleOf(l, v, "", 0)
+		if !strings.Contains(role, "recv.dict[i]") && !strings.Contains(role, "dict[") && !strings.Contains(role, ".Value") {
+			okGet = false
+		}
+		on := false
+		for _, g := range gg {
+			if edgeDominates(g.iff.Block(), g.pass, r.Block()) {
+				on = true
+			}
+		}
+		okGet = okGet && on
+	}
+	c.decide(rule, "lruCache.Get returns the value stored under the key, only on a hit", l.pos(get.Pos()), okGet, "hit ⇒ element.Value, miss ⇒ nil", "Get can return a value on a miss or something other than the element stored under the key")
 }
